@@ -99,6 +99,15 @@ Theorem C20_cache_final_alone : forall p s,
     snd (calone s p) = CFinal /\ slot_ok (fst (calone s p)).
 Proof. exact cache_final_alone. Qed.
 
+(* total correctness: whatever the other threads do, a thread that is scheduled often enough (the length of
+   its protocol + 1 times) HAS returned, and has returned the completely computed value *)
+Theorem C20_cache_final_complete : forall ps sched s i p,
+    forallb stores_final ps = true -> slot_ok s ->
+    nth_error ps i = Some p ->
+    S (length p) <= count_occ Nat.eq_dec sched i ->
+    cresult (crun sched s (cstart ps)) i = Some CFinal.
+Proof. exact cache_final_complete. Qed.
+
 (* `calone` is the small-step semantics with only that thread scheduled *)
 Theorem C20_cache_alone_is_run : forall p s,
     crun (repeat 0 (S (length p))) s [Running p] = (fst (calone s p), [Done (snd (calone s p))]).
@@ -141,6 +150,7 @@ Print Assumptions C20_classified_safe.
 Print Assumptions C20_classified_racy.
 Print Assumptions C20_cache_final_safe.
 Print Assumptions C20_cache_final_alone.
+Print Assumptions C20_cache_final_complete.
 Print Assumptions C20_cache_alone_is_run.
 Print Assumptions C20_cache_placeholder_witness.
 Print Assumptions C20_cache_classified_safe.
